@@ -109,7 +109,15 @@ pub fn record_c06(a: &Args) -> usize {
     for (k, (w, h)) in sizes.iter().enumerate() {
         out.balance();
         let id: u8 = rng.r#gen();
-        let fresh = Page::new(PageId(id), *w, *h);
+        let fresh = match catch(|| Page::new(PageId(id), *w, *h)) {
+            Ok(p) => p,
+            Err(_) => {
+                // creating a page must not panic: recorded as an operation that panicked on an empty page
+                out.emit(json!({"e": "page", "borrowed": false, "obs": {"w": w, "h": h, "id": id, "len": 0, "header": [], "padding": [], "px": []}}));
+                out.emit(json!({"e": "op", "op": {"k": "setall", "x": 0, "y": 0, "v": false}, "res": "panic", "obs": {"w": w, "h": h, "id": id, "len": 0, "header": [], "padding": [], "px": []}}));
+                continue;
+            }
+        };
         // borrowed variant: arbitrary (not 0xFF) padding and header bytes, to see that they are preserved
         let mut backing = fresh.as_bytes().to_vec();
         if k % 2 == 1 {
@@ -235,9 +243,18 @@ pub fn record_c07(a: &Args) -> usize {
         }
         // all ids on the small real sizes, a few elsewhere
         let ids: Vec<u8> = if k < 11 && data_bytes(*w, *h) < 120 { (0..=255).collect() } else { vec![0, 1, 0x7F, 0x80, 0xFF, rng.r#gen()] };
+        let mut new_panicked = false;
         for id in ids {
-            let p = Page::new(PageId(id), *w, *h);
-            out.emit(json!({"e": "new", "id": id, "w": w, "h": h, "bytes": j::bytes(p.as_bytes()), "rid": p.id().0, "rw": p.width(), "rh": p.height()}));
+            match catch(|| Page::new(PageId(id), *w, *h)) {
+                Ok(p) => out.emit(json!({"e": "new", "id": id, "w": w, "h": h, "bytes": j::bytes(p.as_bytes()), "rid": p.id().0, "rw": p.width(), "rh": p.height()})),
+                Err(_) => {
+                    out.emit(json!({"e": "new", "id": id, "w": w, "h": h, "bytes": [], "rid": 0, "rw": 0, "rh": 0, "panic": true}));
+                    new_panicked = true;
+                }
+            }
+        }
+        if new_panicked {
+            continue;
         }
         let fresh = Page::new(PageId(7), *w, *h);
         let total = fresh.as_bytes().len();
